@@ -641,6 +641,17 @@ func (m *lfsModule) streamDownloadWithVerify(r *http.Request, w http.ResponseWri
 		return
 	}
 
+	if written != expectedSize {
+		// Fewer bytes than the envelope declares: the size does not match the
+		// envelope even if the digest of the shorter content happens to.
+		m.logger.Error("LFS download size below envelope — object truncated or stale envelope",
+			"bucket", logSafe(bucket), "key", logSafe(key), "expected_size", expectedSize, "bytes_read", written)
+		m.tracker.EmitDownloadIntegrityFailed(requestID, bucket, key, "stream", "sha256", expectedSHA, "", written, expectedSize)
+		m.lfsWriteHTTPError(w, requestID, "", http.StatusBadGateway, "integrity_failure",
+			"S3 object is shorter than envelope-declared size; refusing to serve")
+		return
+	}
+
 	actualSHA := hex.EncodeToString(hasher.Sum(nil))
 	if actualSHA != expectedSHA {
 		m.logger.Error("LFS download integrity check FAILED — S3 bytes do not match Kafka envelope checksum",
